@@ -15,7 +15,7 @@ import (
 
 var ops = []string{"quantize", "quantize", "quantize", "rtie", "rtiv", "ceil", "floor"}
 
-var gen = arith.Gen(ops, 60, false)
+var gen = arith.Gen(ops, 400, false)
 
 func check(c arith.Case, st *core.Stats) error {
 	e := arith.Reference(c)
